@@ -209,3 +209,58 @@ Proof.
   - unfold finv, vt; cbn [fx fy fz]. repeat split; unfold fin; rewrite is_finite_Prim2B; reflexivity.
   - unfold ibv, vt; cbn [fx fy fz zx zy zz]. exact (conj T3 (conj T7 T3)).
 Qed.
+
+(* ======================================================================================================================================
+   CalculateArithmeticShift in the translator's int64 mode (generated/Generated64.v: every operation returns the wrapped 64-bit value and a
+   flag "no wrap-around happened"; vocabulary theories/I64.v). On the property's own domain — |shift| < 63, index an int64, and for a left
+   shift a product that fits — the regenerated 64-bit kernel returns exactly floor(index * 2^shift) with the flag true: that Go's wrapping
+   `<<` / `>>` equal the unbounded model there is proved (GenEq64Zoom.gen64_CalculateArithmeticShift_fits), no longer assumed.
+   ====================================================================================================================================== *)
+From SIDGen Require Generated64.
+From Coq Require Import Lia.
+From SID Require SetOps.
+From SID Require Import GenTac GenEq64Zoom.
+Open Scope Z_scope.
+Theorem gen64_shift_is_floor i s : - 63 < s < 63 -> - 2 ^ 63 <= i * 2 ^ Z.max 0 s < 2 ^ 63 ->
+  Generated64.CalculateArithmeticShift i s = Some (ashift i s, true).
+Proof.
+  intros Hs Hi. rewrite gen64_CalculateArithmeticShift_fits by (try lia; exact Hi). now rewrite gen_CalculateArithmeticShift_eq.
+Qed.
+(* right shifts: unconditionally on int64 indices *)
+Theorem gen64_shift_right_is_floor i s : - 63 < s <= 0 -> - 2 ^ 63 <= i < 2 ^ 63 ->
+  Generated64.CalculateArithmeticShift i s = Some (ashift i s, true) /\ ashift i s * 2 ^ (- s) <= i < (ashift i s + 1) * 2 ^ (- s).
+Proof.
+  intros Hs Hi. split.
+  - apply gen64_shift_is_floor; [lia|]. rewrite Z.max_l by lia. lia.
+  - destruct (Z.eq_dec s 0) as [->|N]; [rewrite ashift_nonneg by lia; cbn; lia|]. apply SetOps.ashift_right_floor. lia.
+Qed.
+Theorem gen64_shift_both i s : - 63 < s < 63 -> - 2 ^ 63 <= i * 2 ^ Z.max 0 s < 2 ^ 63 ->
+  Generated64.CalculateArithmeticShift i s = Some (ashift i s, true) /\ SetOps.is_floor_shift i s (ashift i s).
+Proof. intros Hs Hi. split; [now apply gen64_shift_is_floor|apply SetOps.ashift_is_floor]. Qed.
+(* evaluation of the regenerated 64-bit kernel: floor for a negative index, the extreme shift counts, and a left shift that does not fit
+   (the wrapped value comes back with the flag false: outside the property's domain) *)
+Example gen64_shift_examples :
+  Generated64.CalculateArithmeticShift (-5) (-1) = Some (-3, true) /\ Generated64.CalculateArithmeticShift (-1) (-62) = Some (-1, true) /\
+  Generated64.CalculateArithmeticShift 1 62 = Some (2 ^ 62, true) /\ Generated64.CalculateArithmeticShift (2 ^ 62) 1 = Some (- 2 ^ 63, false) /\
+  Generated64.CalculateArithmeticShift 3 62 = Some (- 2 ^ 62, false).
+Proof. repeat split; vm_compute; reflexivity. Qed.
+
+(* ---- three more float companions: Vector3.Sub, Point3.Translate, Line3.End are exact on integers (VecExact.fsub_exact / fadd_exact) ---- *)
+Theorem gen_sub_exact_on_integers a b ma mb : ibv K (vt a) ma -> ibv K (vt b) mb ->
+  ibv (K + K) (vt (GeneratedFS.Vector3_Sub a b)) (zsub ma mb).
+Proof.
+  intros Ha Hb. replace (GeneratedFS.Vector3_Sub a b) with (tv (fsub (vt a) (vt b))) by (opent; symmetry; exact (gen_Vector3_Sub_eq (FV _ _ _) (FV _ _ _))).
+  rewrite vt_tv. apply fsub_exact; auto. unfold K; lia.
+Qed.
+Theorem gen_translate_exact_on_integers p a mp ma : ibv K (vt p) mp -> ibv K (vt a) ma ->
+  ibv (K + K) (vt (GeneratedFS.Point3_Translate p a)) (zadd mp ma).
+Proof.
+  intros Hp Ha. replace (GeneratedFS.Point3_Translate p a) with (tv (ftranslate (vt p) (vt a))) by (opent; symmetry; exact (gen_Point3_Translate_eq (FV _ _ _) (FV _ _ _))).
+  rewrite vt_tv. apply fadd_exact; auto. unfold K; lia.
+Qed.
+Theorem gen_line_end_exact_on_integers p d mp md : ibv K (vt p) mp -> ibv K (vt d) md ->
+  ibv (K + K) (vt (GeneratedFS.Line3_End (p, d))) (zadd mp md).
+Proof.
+  intros Hp Hd. replace (GeneratedFS.Line3_End (p, d)) with (tv (fline_end (vt p) (vt d))) by (opent; symmetry; exact (gen_Line3_End_eq (FV _ _ _) (FV _ _ _))).
+  rewrite vt_tv. apply fadd_exact; auto. unfold K; lia.
+Qed.
